@@ -432,7 +432,7 @@ def case_script(case):
 
 
 def campaign(ctx):
-    n = {"quick": 350, "thorough": 5000}[ctx.tier]
+    n = {"quick": 1400, "thorough": 5000}[ctx.tier]
     runner.run_hypothesis(ctx, case_strategy(ctx.tier), runner.guarded(run_case), n)
 
 
